@@ -67,7 +67,8 @@ def qualified_calls(run, F, E):
                where=fn.pat, detail=bad[:3] or None, key='%s::%s can dispatch a user callback virtually' % (fn.tkey.split('::')[-1], fn.m))
 
 
-def one(run, F, E):
+def one(run, F, E, only_kinds=None, rule_a='C15.a', unordered=False):
+    """only_kinds / unordered: the query clause of C05 re-uses the flattening for `query` (exactly once each, order not prescribed)"""
     follow = lambda g: g.tkey == 'ffsm2::detail::A_' and g.m.startswith('wide')
     # ---- C15.a flattened order per state and kind
     for fn in F.find('S_'):
@@ -76,7 +77,10 @@ def one(run, F, E):
         if anchors.is_empty_state_spec(fn):
             continue
         user_m, _, _ = anchors.WRAPPERS[fn.m]
-        if user_m in ('exitGuard', 'query'):
+        if only_kinds is not None:
+            if user_m not in only_kinds:
+                continue
+        elif user_m in ('exitGuard', 'query'):
             continue    # the statement does not constrain their order
         seq, flags = anchors.flatten_user_calls(F, E, fn, follow=follow)
         seq = [(short_cls(c), m) for (c, m, n) in seq]
@@ -119,10 +123,12 @@ def one(run, F, E):
             want = [(i, user_m) for i in inj] + mine
         else:
             want = mine + [(i, user_m) for i in reversed(inj)]
-        ok = seq == want and flags['unconditional'] and flags['ordered']
-        run.ob('C15.a', '%s(%s, k=%d): %s' % (fn.m, me, len(inj), ' '.join('%s::%s' % x for x in want)), ok, where=fn.pat,
+        ok = (sorted(seq) == sorted(want) if unordered else seq == want) and flags['unconditional'] and (flags['ordered'] or unordered)
+        run.ob(rule_a, '%s(%s, k=%d): %s' % (fn.m, me, len(inj), ' '.join('%s::%s' % x for x in want)), ok, where=fn.pat,
                detail=None if ok else {'got': ['%s::%s' % x for x in seq], 'flags': flags},
                key='%s delivers %s in the wrong order or not exactly once' % ('S_::' + fn.m, user_m))
+    if only_kinds is not None:
+        return
     # ---- C15.b pattern-level induction
     for fn in F.find('A_'):
         if not fn.m.startswith('wide'):
